@@ -116,9 +116,10 @@ def main():
             log["check_tail"] = o[-800:]
         dst = os.path.join(VERIF, "seeded", f"{pid}-{var}")
         os.makedirs(dst, exist_ok=True)
-        shutil.copy(os.path.join(src, "patch.diff"), dst)
-        for f in demo_files:
-            shutil.copy(os.path.join(src, f), dst)
+        if os.path.abspath(src) != os.path.abspath(dst):
+            shutil.copy(os.path.join(src, "patch.diff"), dst)
+            for f in demo_files:
+                shutil.copy(os.path.join(src, f), dst)
         rc_, base = sh("git -C /repo log -1 --format=%h")
         log["repo_head_when_confirmed"] = base.strip()
         meta.update(res)
